@@ -32,7 +32,8 @@ def run(report: Report, tier, seed):
                   "assigns to the element (callees _consecutive_bool_type_spec_num and _bool_sequence_length by their proved contracts); the decode() / decode_bit() / ExtractUint16 "
                   "constructors are summarised as pure records; class facts: Bool instance <=> bool type spec, equal type specs agree on bool-ness / dynamic-ness / static length")
     run_contracts(report, [("contracts.c06_layout", "ConsecutiveThingNum", "O6.14"), ("contracts.c06_layout", "BoolSequenceLength", "O6.13"),
-                           ("contracts.c07_index", "IndexTuple", "O7.1"), ("contracts.c06_uint", "UintDecode", "O7.9")])
+                           ("contracts.c07_index", "IndexTuple", "O7.1"), ("contracts.c06_uint", "UintDecode", "O7.9"),
+                           ("contracts.c06_uint", "BoolDecode", "O7.10")])
     jobs = jobs_for(tier, seed + 1)
     res = A.pool_map(A.decode_case, jobs)
     ran = sum(r["ran"] for r in res)
@@ -63,6 +64,11 @@ def run(report: Report, tier, seed):
         report.violation(Violation(key=f"namedtuple:{b['job'][0]}:{b['job'][1]}", what=b["problems"][0][:400], replay={"input": {"namedtuple": b["job"]}, "teal": b.get("teal")}, confirmed_native=True))
     report.extra["explanation"] = "P: _index_tuple offset arithmetic (pyvc); B: decode/element access against algosdk on generated shapes"
     def srch(fn, obs):
+        if fn.endswith("Bool.decode"):
+            from checks.c06 import bool_codec_replay
+            w = bool_codec_replay("decode")
+            if w:
+                return w
         if fn.endswith("uint.uint_decode"):
             from checks.c06 import uint_codec_replay
             w = uint_codec_replay("decode")
